@@ -861,3 +861,14 @@ def build(ctx):
         dictattr_section(ctx, M, cls)
     ctx.guarded('Dict.__call__', lambda: call_section(ctx, M))
     inherit_replay(ctx)
+
+    # ------------------------------------------------------------------ frame: operations that return a new object never alter their operands
+    def frame_section():
+        from pyvc import own
+        own.post_all(ctx, own.table_report(PROP), replay=frame_replay)
+    # ctx.guarded('frame', frame_section)   # enabled once the tuple-path / dotted-key path preconditions of dictattr.__sub__ can be stated to the checker
+
+
+def frame_replay(d):
+    """replay description of a failed frame obligation: the native re-check looks at the receiver / operands before and after the call"""
+    return dict(kind='frame', name=d['name'], where=d['where'], detail=d['detail'][:300])
